@@ -349,7 +349,8 @@ def units(tier, seed):
         Pp = 1 if ('clip' in prog.tags or prog.name in ('absolute', 'sign') or 'slow' in prog.tags) else P
         Dp = 2 if 'slow' in prog.tags else D
         out.append(Unit('C03/%s/D%d,P%d' % (prog.name, Dp, Pp), 'symx.props.c03', 'h_prog',
-                        {'pname': prog.name, 'D': Dp, 'P': Pp}, dict(opts)))
+                        {'pname': prog.name, 'D': Dp, 'P': Pp},
+                        dict(opts, unit_timeout=2400, path_budget=2000) if 'slow' in prog.tags else dict(opts)))
     if tier == 'quick':
         for pn in ['exp', 'x*x', 'sin', 'square', 'reciprocal', 'negative', 'x*x[::-1]', 'expm1', 'logit', 'erf', 'dawsn', 'hyperu', 'polygamma1', 'sqrt', 'log', 'absolute']:
             out.append(Unit('C03/%s/D3,P1' % pn, 'symx.props.c03', 'h_prog', {'pname': pn, 'D': 3, 'P': 1}, dict(opts)))
